@@ -27,7 +27,7 @@ package keeper
 //@   loop #0 decreases seqlen(R) - 1 - rangeindex
 //@
 //@ func (Keeper).RegisterRelayers(ctx, chainName, relayers)
-//@   props C15
+//@   props C15 C16
 //@   modifies tibc
 //@   ensures stored: relayersOf(tibc[relayers(chainName)]) == relayers
 //@   ensures frame:  forall k: key :: k != relayers(chainName) ==> tibc[k] == old(tibc)[k]
@@ -57,3 +57,27 @@ package keeper
 //@   ensures inactive.untouched: exported.statusOf(types.csDecode(val(old(tibc)[clientState(chainName)])), old(tibc), chainName, now()) != exported.Active ==>
 //@                       err != nil && tibc == old(tibc) && !called(ClientState.CheckHeaderAndUpdateState)
 //@   ensures frame:   forall k: key :: !inClient(k, chainName) && k != clientState(chainName) && !is_consState(k) ==> tibc[k] == old(tibc)[k]
+//@
+//@ // ---- C16 (genesis import): the setters used by InitGenesis write exactly one key each
+//@ func (Keeper).SetClientState(ctx, chainName, clientState)
+//@   props C16
+//@   modifies tibc
+//@   ensures def: tibc == old(tibc)[clientState(chainName) := types.csEncode(clientState)]
+//@
+//@ func (Keeper).SetClientConsensusState(ctx, chainName, height, consensusState)
+//@   props C16
+//@   modifies tibc
+//@   ensures def: tibc == old(tibc)[consState(chainName, height.GetRevisionNumber(), height.GetRevisionHeight()) := types.consEncode(consensusState)]
+//@
+//@ func (Keeper).SetChainName(ctx, chainName)
+//@   props C16
+//@   modifies tibc
+//@   ensures def: tibc == old(tibc)[k_raw("chainName") := chainName]
+//@
+//@ // client metadata records are written as raw keys inside the client stores: nothing else is touched
+//@ func (Keeper).SetAllClientMetadata(ctx, genMetadata)
+//@   props C16
+//@   modifies tibc
+//@   ensures frame: forall k: key :: !is_clientRaw(k) ==> tibc[k] == old(tibc)[k]
+//@   loop #0 invariant frame: forall k: key :: !is_clientRaw(k) ==> tibc[k] == old(tibc)[k]
+//@   loop #1 invariant frame: forall k: key :: !is_clientRaw(k) ==> tibc[k] == old(tibc)[k]
